@@ -91,6 +91,15 @@ fn build_registry() -> Registry {
         s.marks = chunk_marks(&bytes);
         seeds.push(s);
     }
+    {
+        let (bytes, eof_at) = all_chunks_patch();
+        let mut s = SeedFile::new("zipatch", "all-chunks", bytes.clone());
+        s.args = vec![bytes.clone(), pack_files(&exps), vec![0]];
+        s.magic = 12;
+        s.must_fail_below = Some(eof_at + 8);
+        s.marks = chunk_marks(&bytes);
+        seeds.push(s);
+    }
     // boot data: version file contents, and a patch applied through BootData
     let mut s = SeedFile::new("bootdata", "ver", b"2012.01.01.0000.0000".to_vec());
     s.args = vec![vec![3], b"2012.01.01.0000.0000".to_vec()];
@@ -111,6 +120,73 @@ fn build_registry() -> Registry {
         seeds.push(s);
     }
     Registry::new(seeds)
+}
+
+/// text-like content that deflates well (so that deflated blocks have real Huffman-coded payloads)
+fn compressible(n: usize) -> Vec<u8> {
+    (0..n).map(|i| b"The quick brown fox jumps over the lazy dog. 0123456789\n"[(i * 7 + i / 13) % 56]).collect()
+}
+
+/// one patch that contains every chunk and command kind, with a multi-block AddFile mixing raw and deflated blocks
+fn all_chunks_patch() -> (Vec<u8>, usize) {
+    use crate::build::deflate::Mode;
+    use crate::build::zipatch as zp;
+    let mut b = zp::file_header();
+    b.extend_from_slice(&zp::fhdr(true, 7));
+    b.extend_from_slice(&zp::aply(1, 0));
+    b.extend_from_slice(&zp::dir_chunk(true, "sqpack/ex1"));
+    b.extend_from_slice(&zp::target_info(0, -1, false, 1));
+    b.extend_from_slice(&zp::patch_info(1, 2, 1000));
+    b.extend_from_slice(&zp::index_cmd(true, false, 0x1234_5678_9abc_def0, 3, 1));
+    b.extend_from_slice(&zp::add_data(2, 0x0100, 0, 2, &[0xAB; 256], 1));
+    b.extend_from_slice(&zp::delete_or_expand(false, 2, 0x0100, 0, 1, 1));
+    b.extend_from_slice(&zp::delete_or_expand(true, 2, 0x0100, 1, 0, 2));
+    b.extend_from_slice(&zp::header_update(false, b'V', 2, 0x0100, 0, &[3u8; 1024]));
+    b.extend_from_slice(&zp::header_update(true, b'I', 2, 0x0100, 0, &[4u8; 1024]));
+    let c1 = compressible(700);
+    let c2 = compressible(300);
+    let blocks = vec![zp::file_block(&c1, Mode::Dynamic), zp::file_block(b"raw block", Mode::Raw), zp::file_block(&c2, Mode::Fixed), zp::file_block(&c2[..40], Mode::Stored)];
+    b.extend_from_slice(&zp::file_op(b'A', 0, (700 + 9 + 300 + 40) as u64, 0, "boot/data/file.bin", &blocks));
+    b.extend_from_slice(&zp::file_op(b'M', 0, 0, 0, "movie/ffxiv/dir/x", &[]));
+    b.extend_from_slice(&zp::file_op(b'D', 0, 0, 0, "boot/data/file.bin", &[]));
+    b.extend_from_slice(&zp::file_op(b'R', 0, 0, 2, "", &[]));
+    b.extend_from_slice(&zp::dir_chunk(false, "old"));
+    let eof_at = b.len();
+    b.extend_from_slice(&zp::eof());
+    (b, eof_at)
+}
+
+/// Leak probes: the same failing call repeated; the residual heap must not grow per call. The failing shape is a
+/// deflated AddFile block whose stream is damaged at each of its first 96 bytes (and whose declared size is wrong).
+fn leak_probes(_: &Ctx) -> Vec<RCase> {
+    use crate::build::deflate::Mode;
+    use crate::build::zipatch as zp;
+    let reg = registry();
+    let s = reg.get("zipatch", "all-chunks").expect("all-chunks seed");
+    let patch = s.args[0].clone();
+    let first = zp::file_block(&compressible(700), Mode::Dynamic);
+    let at = patch.windows(first.len()).position(|w| w == &first[..]).expect("block inside patch");
+    let mut v = vec![];
+    for i in 0..96usize {
+        let mut p = patch.clone();
+        p[at + 16 + i] ^= 0x5A;
+        let mut c = RCase::explicit("zipatch", "leak:damaged-deflate-stream", vec![p, s.args[1].clone(), vec![0]]);
+        c.reps = 40;
+        v.push(c);
+    }
+    for delta in [1i32, -1, 1000] {
+        let mut p = patch.clone();
+        let y = i32::from_le_bytes([p[at + 12], p[at + 13], p[at + 14], p[at + 15]]) + delta;
+        p[at + 12..at + 16].copy_from_slice(&y.to_le_bytes());
+        let mut c = RCase::explicit("zipatch", "leak:wrong-declared-size", vec![p, s.args[1].clone(), vec![0]]);
+        c.reps = 40;
+        v.push(c);
+    }
+    // control: the undamaged patch, repeated (must not be reported)
+    let mut c = RCase::explicit("zipatch", "leak:control-valid-patch", vec![patch, s.args[1].clone(), vec![0]]);
+    c.reps = 40;
+    v.push(c);
+    v
 }
 
 /// chunk boundaries of a ZiPatch stream (12-byte file header, then BE size + tag + body + crc)
@@ -307,6 +383,7 @@ pub fn property() -> Property {
         parts: vec![
             Box::new(Part { name: "seeds", driver: Driver::Enum(seeds_as_they_are), prop, exhaustive: true }),
             Box::new(Part { name: "io-faults", driver: Driver::Enum(io_faults), prop, exhaustive: true }),
+            Box::new(Part { name: "leak-probes", driver: Driver::Enum(leak_probes), prop, exhaustive: false }),
             Box::new(Part { name: "truncations", driver: Driver::Enum(truncations), prop, exhaustive: true }),
             Box::new(Part { name: "fields", driver: Driver::Enum(fields), prop, exhaustive: true }),
             Box::new(Part { name: "random-mutants", driver: Driver::Gen(mutants, 40_000, 1_000_000), prop, exhaustive: false }),
